@@ -190,6 +190,9 @@ def fn_training(cls_name, fn, fin, ei):
         if s == "if len(Y_sample) == 0:\n    return self.move_random()":
             early = True
             continue
+        if isinstance(st, ast.If) and _u(st.test) == "len(Y_sample) == 0" and len(st.body) == 1 and isinstance(st.body[0], ast.Raise) \
+                and _u(st.body[0].exc).startswith("ValueError(") and not st.orelse:
+            continue            # no data: the ValueError `_propose_location` turns into a random iteration - "training failed", no draws here
         raise Untranslatable(f"{cls_name}._training: `{s}`")
     if [_u(x) for x in fin.body] != ["self.all_pos_comb = self._all_possible_pos()", "return super().finish_initialization()"]:
         raise Untranslatable(f"{cls_name}.finish_initialization: " + " | ".join(_u(x) for x in fin.body))
@@ -203,6 +206,10 @@ def fn_training(cls_name, fn, fin, ei):
 
 def fn_lipschitz_iterate(fn):
     decs = [_u(d) for d in fn.decorator_list]
+    guard = False
+    if fn.body and _u(fn.body[0]) == "if len(self.X_sample) == 0:\n    return self.move_random()":
+        guard = True
+        fn = ast.FunctionDef(name=fn.name, args=fn.args, body=fn.body[1:], decorator_list=fn.decorator_list, returns=None, type_comment=None)
     want = ["self.pos_comb = self._sampling(self.all_pos_comb)", "lip_func = LipschitzFunction(self.pos_comb)",
             "upper_bound_l = lip_func.calculate(self.X_sample, self.Y_sample, self.score_best)", None,
             "all_pos_comb_sorted = self.pos_comb[index_best]", None, "return pos_best"]
@@ -221,7 +228,9 @@ def fn_lipschitz_iterate(fn):
         pick = "all_pos_comb_sorted.getLast?"
     else:
         raise Untranslatable("LipschitzOptimizer.iterate: " + got[5])
-    return ("/-- `LipschitzOptimizer.iterate` (undecorated): `asc` is what `upper_bound_l.argsort()` returned, `pc` is `self.pos_comb` -/\n"
+    return ("/-- `LipschitzOptimizer.iterate` starts with `if len(self.X_sample) == 0: return self.move_random()` -/\n"
+            f"def lipschitz_empty_sample_fallback : Bool := {'true' if guard else 'false'}\n\n"
+            "/-- `LipschitzOptimizer.iterate` (undecorated): `asc` is what `upper_bound_l.argsort()` returned, `pc` is `self.pos_comb` -/\n"
             "def lipschitz_pick (pc : List Pos) (asc : List Nat) : Option Pos :=\n"
             f"  let index_best := {idx}\n"
             "  match index_best.mapM (fun i => pc[i]?) with\n  | none => none\n"
